@@ -11,6 +11,7 @@ from .common import outcome_of, is_sample
 from oracles import rules as oracle
 
 U_SRC=['a','d/b','d/c']
+U_SRC_MATCH=['a','d/b','d/c','db']      # db: starts with the letters of the prefix `d` without being under the directory d/
 U_DST=['b','e/b','d/b','a']
 BASIC=[{'kind':k,'pattern':p} for k in ('CREATE','DELETE','MODIFY','ALLOW','DISALLOW') for p in ('a','*','d/*')]+\
       [{'kind':'ALLOW','pattern':'?'},{'kind':'ALLOW','pattern':'d/?'},{'kind':'DISALLOW','pattern':'['},{'kind':'ALLOW','pattern':'['},
@@ -26,7 +27,7 @@ class Rules(Obligation):
     hash_order='fixed'
     def __init__(self,group='basic',seq=1,item='step',algs=False,seed=0,known=(),rate=60,small=False,**kw):
         self.group=group; self.seq=seq; self.item=item; self.algs=algs; self.seed=seed; self.rate=rate; self.known=set(known)
-        self.u_src=U_SRC[:2] if small else U_SRC; self.u_dst=U_DST[:3] if small else U_DST
+        self.u_src=U_SRC[:2] if small else (U_SRC_MATCH if group=='match' else U_SRC); self.u_dst=U_DST[:3] if small else U_DST
         self.name='C03.rules_'+group+('_seq%d'%seq if seq>1 else '')+('_insp' if item!='step' else '')
         self.bounds={'path_universe':self.u_src,'referenced_step_universe':self.u_dst,'item':item,
                      'rule_list':('%d rule(s) from the %s catalog (%d entries)'%(seq,group,len(BASIC) if group=='basic' else len(MATCHES)) if group!='pairs' else 'a pair of MATCH rules from the pair catalog (%d entries: same FROM step with different WITH kinds / prefixes)'%len(PAIRS))+' followed by one of: DISALLOW *, REQUIRE a, REQUIRE d/b, nothing; applied to materials or to products',
